@@ -21,3 +21,5 @@ open Verif.Props.C04
 #print axioms passthrough_token
 #print axioms passthrough_raw
 #print axioms writeRaw_plain
+#print axioms bg_position_layer_ok
+#print axioms bg_position_ok
